@@ -6,6 +6,7 @@ import (
 	"crypto/ecdsa"
 	"crypto/elliptic"
 	"crypto/rand"
+	"crypto/rsa"
 	"crypto/x509"
 	"encoding/hex"
 	"encoding/json"
@@ -37,15 +38,22 @@ type c12SignerCase struct {
 	Version string   `json:"version"`
 	At      int      `json:"deviating_response"` // index of the request whose answer deviates (-1: none)
 	Plan    respPlan `json:"deviation"`
+	// KeyAlg: the public key material the server hands out: "" / ec = an EC P-256 key, rsa = an RSA key - whatever the
+	// attributes said (an inconsistent server is still a server); Sign: after a successful Signer call the signer is
+	// used once (the server answers the Sign request with SignLen signature bytes)
+	KeyAlg  string `json:"public_key_material,omitempty"`
+	Sign    bool   `json:"then_sign,omitempty"`
+	SignLen int    `json:"signature_bytes,omitempty"`
 }
 
 var (
-	c12PubOnce sync.Once
-	c12PubDER  []byte
+	c12PubOnce   sync.Once
+	c12PubDER    []byte
+	c12RSAPubDER []byte
 )
 
 // signerPayload builds the conformant response payload for a request of the Signer conversation.
-func signerPayload(req *ttlvref.Node, alg kmip.CryptographicAlgorithm) string {
+func signerPayload(req *ttlvref.Node, alg kmip.CryptographicAlgorithm, opt ...c12SignerCase) string {
 	op := find(req, tOperation)
 	uid := find(req, 0x420094)
 	if op == nil || uid == nil {
@@ -76,10 +84,33 @@ func signerPayload(req *ttlvref.Node, alg kmip.CryptographicAlgorithm) string {
 			if err != nil {
 				panic(err)
 			}
+			rk, err := rsa.GenerateKey(rand.Reader, 1024)
+			if err != nil {
+				panic(err)
+			}
+			c12RSAPubDER, err = x509.MarshalPKIXPublicKey(&rk.PublicKey)
+			if err != nil {
+				panic(err)
+			}
 		})
+		der, kalg, klen := &c12PubDER, kmip.CryptographicAlgorithmEC, int32(256)
+		if len(opt) > 0 && opt[0].KeyAlg == "rsa" {
+			der, kalg, klen = &c12RSAPubDER, kmip.CryptographicAlgorithmRSA, 1024
+		}
 		pl := payloads.GetResponsePayload{ObjectType: kmip.ObjectTypePublicKey, UniqueIdentifier: id, Object: &kmip.PublicKey{KeyBlock: kmip.KeyBlock{
-			KeyFormatType: kmip.KeyFormatTypeX_509, KeyValue: &kmip.KeyValue{Plain: &kmip.PlainKeyValue{KeyMaterial: kmip.KeyMaterial{Bytes: &c12PubDER}}},
-			CryptographicAlgorithm: kmip.CryptographicAlgorithmEC, CryptographicLength: 256}}}
+			KeyFormatType: kmip.KeyFormatTypeX_509, KeyValue: &kmip.KeyValue{Plain: &kmip.PlainKeyValue{KeyMaterial: kmip.KeyMaterial{Bytes: der}}},
+			CryptographicAlgorithm: kalg, CryptographicLength: klen}}}
+		enc.TagAny(kmip.TagResponsePayload, &pl)
+	case 0x21: // Sign
+		n := 64
+		if len(opt) > 0 {
+			n = opt[0].SignLen
+		}
+		sigBytes := make([]byte, n)
+		for i := range sigBytes {
+			sigBytes[i] = byte(i + 1)
+		}
+		pl := payloads.SignResponsePayload{UniqueIdentifier: id, SignatureData: sigBytes}
 		enc.TagAny(kmip.TagResponsePayload, &pl)
 	default:
 		return ""
@@ -106,7 +137,7 @@ func c12SignerRun(c c12SignerCase) (sig string, err error) {
 		if k == c.At {
 			return buildResponse(c.Plan, req), false
 		}
-		return buildResponse(respPlan{Items: []itemPlan{{OpMode: "requested", PayloadMode: "requested", PayloadHex: signerPayload(req, alg)}}}, req), false
+		return buildResponse(respPlan{Items: []itemPlan{{OpMode: "requested", PayloadMode: "requested", PayloadHex: signerPayload(req, alg, c)}}}, req), false
 	}
 	cl, conns, derr := newScriptedClient(ver, srv, true)
 	defer func() {
@@ -137,8 +168,14 @@ func c12SignerRun(c c12SignerCase) (sig string, err error) {
 	srv.mu.Unlock()
 	if c.At < 0 || c.At >= nreq {
 		// the conversation was conformant as far as it went
-		if c.At < 0 && serr != nil {
+		if c.At < 0 && serr != nil && c.KeyAlg == "" {
 			return "harness-signer-baseline", fmt.Errorf("Signer(%q, %q) fails on a conformant conversation of %d requests: %v", priv, pub, nreq, serr)
+		}
+		if serr == nil && sg != nil && c.Sign {
+			// the signer is used: whatever the server had said about the key, signing returns a signature or an error
+			if perr := safely(func() error { _, _ = sg.Sign(rand.Reader, make([]byte, 32), crypto.SHA256); return nil }); perr != nil {
+				return "sign-panics", fmt.Errorf("Signer(%q, %q) succeeded (attributes say %s, public key material is %q); its Sign then panics: %w", priv, pub, c.Alg, c.KeyAlg, perr)
+			}
 		}
 		return "", nil
 	}
@@ -176,7 +213,7 @@ func TestC12Signer(t *testing.T) {
 	const name = "TestC12Signer"
 	rec := evid.New("C12", name, "Client.Signer called with a private key ID, a public key ID or both (RSA or EC attributes, versions 1.0..1.4) against a scripted server that knows the conversation (Get Attributes of one key, Get Attributes of the linked key, Get of the public key): "+
 		"every request gets a conformant answer except the 1st, 2nd or 3rd one, which gets a generated deviation (counts, operation, status, reason, message, payload as in TestC12Responses); oracle: no panic; a failed item, a missing payload or wrong counts at ANY position ends the call with an error, "+
-		"which carries status, reason and message of a failed item; a fully conformant conversation yields a signer (checked first, else inconclusive); non-trivial = the deviating answer was delivered and violates the protocol; distinct by case").Attach(t)
+		"which carries status, reason and message of a failed item; a fully conformant conversation yields a signer (checked first, else inconclusive); one case in three has no deviation and uses the signer once (Sign request answered with 0..132 signature bytes), the public key material being EC or RSA whatever the attributes announce: Sign returns or fails, it does not panic; non-trivial = the deviating answer was delivered and violates the protocol; distinct by case").Attach(t)
 	if rp := evid.LoadReplay(name); rp != nil {
 		var c c12SignerCase
 		if err := json.Unmarshal(rp.Case, &c); err != nil {
@@ -197,6 +234,13 @@ func TestC12Signer(t *testing.T) {
 	rapid.Check(t, func(rt *rapid.T) {
 		c := c12SignerCase{Variant: rapid.SampledFrom([]string{"private", "public", "both"}).Draw(rt, "variant"), Alg: rapid.SampledFrom([]string{"rsa", "ec"}).Draw(rt, "alg"),
 			Version: rapid.SampledFrom(gen.Versions).Draw(rt, "version").String(), At: rapid.IntRange(0, 2).Draw(rt, "at")}
+		if rapid.IntRange(0, 2).Draw(rt, "usesigner") == 0 {
+			// no deviation in the conversation: the signer is obtained and used, against a server whose key material may
+			// not be of the algorithm its attributes announce
+			c.At, c.Sign = -1, true
+			c.KeyAlg = rapid.SampledFrom([]string{"ec", "rsa"}).Draw(rt, "keyalg")
+			c.SignLen = rapid.SampledFrom([]int{0, 1, 63, 64, 65, 70, 72, 128, 132}).Draw(rt, "signlen")
+		}
 		op := kmip.OperationGetAttributes
 		if c.At == 2 {
 			op = kmip.OperationGet
